@@ -43,6 +43,16 @@ func NewExecutionControl(client executionv1alpha1.ExecutionV1alpha1Interface, na
 	}
 }
 
+// IsJobUpToDate returns true if the given Job, which was read from the cache, is
+// the latest version of the Job in the apiserver.
+func (c *ExecutionControl) IsJobUpToDate(ctx context.Context, rj *execution.Job) (bool, error) {
+	latest, err := c.client.Jobs(rj.GetNamespace()).Get(ctx, rj.GetName(), metav1.GetOptions{})
+	if err != nil {
+		return false, err
+	}
+	return latest.UID == rj.UID && latest.ResourceVersion == rj.ResourceVersion, nil
+}
+
 func (c *ExecutionControl) UpdateJob(ctx context.Context, rj, newRj *execution.Job) (bool, error) {
 	updatedRj, err := c.UpdateJobAndGet(ctx, rj, newRj)
 	return updatedRj != nil, err
